@@ -66,7 +66,8 @@ def concretise(p, rnd):
     s = {"none": "", "sp": " ", "mixed": "\t\n \r", "vt": "\v", "ff": "\f"}[p["ws"]] + {"none": "", "plus": "+", "minus": "-"}[p["sign"]] + pre + digits + \
         {"none": "", "sp": " ", "letter": "z" if b < 36 else "!", "comma": ", 34"}[p["junk"]]
     lines = []
-    tr = 1 if p["trailing"] else 0
+    # "disabled if trailing is non-zero": any non-zero value, not only 1 (chosen by the content, so the same point gives the same line)
+    tr = [1, 2, -1, 4, 256, 1][(len(s) + lo + hi) % 6] if p["trailing"] else 0
     if signed:
         lines.append("pn %s e6i %d %d %d %d %s" % (t, base, tr, lo, hi, hx(s)))
         if base == 0 and not tr:
